@@ -78,6 +78,22 @@ impl Op {
     }
 }
 
+/// The model after `op` succeeded.
+pub fn model_after(m: &Model, op: &Op) -> Model {
+    let mut m = m.clone();
+    match op {
+        Op::Append(..) | Op::Batch(..) => {
+            if m.writable {
+                m.append_batch(&Sut::materialize(op));
+            }
+        }
+        Op::Clear(s, e) => m.clear(*s, *e),
+        Op::MakeReadOnly => m.writable = false,
+        _ => {}
+    }
+    m
+}
+
 pub fn ops_to_json(ops: &[Op]) -> Value {
     Value::Array(ops.iter().map(|o| o.to_json()).collect())
 }
